@@ -244,6 +244,28 @@ def run_case(case):
             # must fail before anything is put on the wire, with a library error
             wrote = peer is not None and (peer.received_raw or peer.buf)
             exc = out.get('exc')
+            # ... and again when the application simply tries once more
+            n_peers = len(world.peers)
+            out3 = {}
+
+            def user3():
+                try:
+                    with ae.request_association({'aet': 'REMOTE_AE', 'address': ADDR[0],
+                                                 'port': ADDR[1]}):
+                        out3['assoc'] = True
+                except Exception as e:  # pylint: disable=broad-except
+                    out3['exc'] = e
+            world.spawn(user3, 'user3')
+            world.run(tmax=400)
+            world.drain(1.0)
+            dead = [x for x in world.sim.tasks if x.role == 'dul' and x.exc is not None]
+            if len(world.peers) > n_peers or out3.get('assoc') or \
+                    not isinstance(out3.get('exc'), exceptions.AssociationError) or \
+                    isinstance(out3.get('exc'), exceptions.AssociationAbortedError):
+                v('unproposable-configuration-second-attempt-differs classes=%s' %
+                  _bucket(len(configured)),
+                  'first attempt: %r; second attempt: %r, connections opened %d' % (
+                      exc, out3.get('exc'), len(world.peers) - n_peers))
             if wrote:
                 v('unproposable-configuration-reached-the-wire classes=%s' % _bucket(len(configured)),
                   'peer received %d PDUs / %d stray bytes' % (len(peer.received_raw), len(peer.buf)))
